@@ -12,7 +12,7 @@ import time
 
 from .sim import HarnessError
 
-NWORKERS = max(1, min(14, (os.cpu_count() or 2) - 2))
+NWORKERS = max(1, min(int(os.environ.get("VERIF_WORKERS") or 14), (os.cpu_count() or 2) - 2))
 try:
     ALL_CPUS = sorted(os.sched_getaffinity(0))
 except (AttributeError, OSError):
